@@ -118,37 +118,114 @@ Fixpoint subseq (xs ys : list string) {struct ys} : bool :=
   | x :: xs', y :: ys' => if String.eqb x y then subseq xs' ys' else subseq xs ys'
   end.
 
-(* for every source token, the line bit of its counterpart in the printed text; None when the
-   formatter deletes it (only ';' when [norm a = a], the case in which this is used) *)
-Fixpoint align (src prt : list token) : list (option bool) :=
+(* The printed tokens of a description, each marked "kept by format.Source" or "deleted" (it
+   belongs to a construct that [norm] deletes: an info/import/type group or @server/@doc block that
+   is empty or holds only empty strings, import "", an empty "()" body with its "returns").  The
+   kept tokens, in order, are exactly [print (norm a)] (checked again on every case below). *)
+Definition mtoken := (token * bool)%type.
+Definition keep_all (l : list token) : list mtoken := map (fun t => (t, true)) l.
+Definition del_all (l : list token) : list mtoken := map (fun t => (t, false)) l.
+
+Definition mark_body (ret : bool) (b : option body) : list mtoken :=
+  let kw := if ret then [tI "returns"] else [] in
+  match b with
+  | None => []
+  | Some None => del_all (kw ++ pr_body None)
+  | Some (Some x) => keep_all (kw ++ pr_body (Some x))
+  end.
+
+Definition pr_doc (d : atdoc) : list token :=
+  match d with
+  | DocLit x => [tPn KAtDoc "@doc"; tP KStr x]
+  | DocGroup l => [tPn KAtDoc "@doc"; tP KLParen "("] ++ flat_map pr_kv l ++ [tPn KRParen ")"]
+  end.
+
+Definition mark_item (i : item) : list mtoken :=
+  match i_doc i with
+  | None => []
+  | Some d => (match norm_doc (Some d) with None => del_all | Some _ => keep_all end) (pr_doc d)
+  end
+  ++ keep_all ([tPn KAtHandler "@handler"; tI (i_handler i)] ++ tIn (r_method (i_route i)) :: pr_path (r_path (i_route i)))
+  ++ mark_body false (r_req (i_route i)) ++ mark_body true (r_resp (i_route i)).
+
+Definition mark_stmt (s : stmt) : list mtoken :=
+  match norm_stmt s with
+  | [] => del_all (pr_stmt s)
+  | _ =>
+    match s with
+    | SService srv n a its =>
+      match srv with
+      | Some l =>
+        (if forallb (fun e : skv => sval_zero (snd e)) l then del_all else keep_all)
+          ([tPn KAtServer "@server"; tP KLParen "("] ++ flat_map pr_skv l ++ [tPn KRParen ")"])
+      | None => []
+      end
+      ++ keep_all ([tIn "service"; tI n] ++ (if a then [tP KSub "-"; tI "api"] else []) ++ [tP KLBrace "{"])
+      ++ flat_map mark_item its ++ keep_all [rb_after its]
+    | _ => keep_all (pr_stmt s)
+    end
+  end.
+
+Definition mark (a : api) : list mtoken := flat_map mark_stmt a.
+
+Definition mark_consistent (a : api) : bool :=
+  list_eqb (fun x y : token => tok_eqb x y && Bool.eqb (tnl x) (tnl y)) (map fst (mark a)) (print a)
+  && list_eqb (fun x y : token => tok_eqb x y && Bool.eqb (tnl x) (tnl y))
+              (map fst (filter snd (mark a))) (print (norm a)).
+
+(* for every source token: is its counterpart kept, and does the canonical layout start a line
+   there?  None: the token has no counterpart (a ';', which the formatter deletes) *)
+Fixpoint align (src : list token) (prt : list mtoken) : list (option (bool * bool)) :=
   match src with
   | [] => []
   | x :: src' =>
     match prt with
-    | p :: prt' => if tok_eqb x p then Some (tnl p) :: align src' prt' else None :: align src' prt
+    | (p, k) :: prt' => if tok_eqb x p then Some (k, tnl p) :: align src' prt' else None :: align src' prt
     | [] => None :: align src' []
     end
   end.
-(* does the canonical layout start a line at the token that follows the first k source tokens
-   (or is that the end of the text)?  No when the formatter deletes that token. *)
-Definition line_start_after (al : list (option bool)) (k : nat) : bool :=
-  match skipn k al with
-  | [] => true
-  | Some b :: _ => b
-  | None :: _ => false
-  end.
 
-(* the comments that stand where the canonical layout breaks the line anyway: at the end of a
-   printed line, or on lines of their own between two printed lines (and not next to a ';', which
-   the formatter deletes together with the comments attached to it) *)
-Definition prev_kept (al : list (option bool)) (k : nat) : bool :=
-  match k with
-  | O => true
-  | S j => match nth_error al j with Some (Some _) => true | _ => false end
+(* A comment with k source tokens before it, on the line of the token before it ([same]: the
+   parser attaches it to that token as a "leading" comment) or not (then it is a "head" comment of
+   the token after it), MUST survive formatting unless
+   - it is attached to a token the formatter deletes, or
+   - it stands between two tokens that the canonical layout prints on one line.
+   So a comment on lines of its own between two printed lines, at the end of a printed line, above a
+   kept declaration, at the start or at the end of the file must be in the formatted text. *)
+Fixpoint next_kept (l : list (option (bool * bool))) : option bool :=
+  match l with
+  | [] => None
+  | Some (true, nl) :: _ => Some nl
+  | _ :: r => next_kept r
   end.
-Definition placed_cmts (src prt : list token) (cs : list cmt) : list cmt :=
-  let al := align src prt in
-  filter (fun c : cmt => prev_kept al (fst c) && line_start_after al (fst c)) cs.
+Definition must_survive (al : list (option (bool * bool))) (k : nat) (same : bool) : bool :=
+  if same then
+    (* trailing comment of token k-1 *)
+    match k with
+    | O => true
+    | S j => match nth_error al j with
+             | Some (Some (true, _)) => match next_kept (skipn k al) with Some nl => nl | None => true end
+             | _ => false
+             end
+    end
+  else
+    (* head comment of token k (of the end of the file) *)
+    match skipn k al with
+    | [] => true
+    | Some (true, nl) :: _ => nl
+    | _ => false
+    end.
+
+Fixpoint placed_go (al : list (option (bool * bool))) (cs : list cmt) (sm : list bool) : list cmt :=
+  match cs with
+  | [] => []
+  | c :: cs' =>
+    let same := match sm with b :: _ => b | [] => false end in
+    let rest := placed_go al cs' (tl sm) in
+    if must_survive al (fst c) same then c :: rest else rest
+  end.
+Definition placed_cmts (src : list token) (a : api) (cs : list cmt) (sm : list bool) : list cmt :=
+  placed_go (align src (mark a)) cs sm.
 
 (* Two places where format.Source keeps a line break of the source although the canonical
    layout has none (ModeAuto in ast.Writer.write); the grammar does not look at the line there:
@@ -186,6 +263,7 @@ Record case := mkCase
     c_scan_ok : bool;            (* the Go scanner tokenised the whole source *)
     c_toks : list token;         (* its non-comment tokens *)
     c_cmts : list cmt;           (* its comment tokens *)
+    c_csame : list bool;         (* per comment: on the line of the token before it? *)
     c_ast : option api;          (* AST built by the Go parser (None: it reported errors) *)
     c_pout : outcome;            (* Parser.Parse outcome *)
     c_fout : outcome;            (* format.Source outcome *)
@@ -227,15 +305,15 @@ Definition agrees (c : case) : bool :=
      end.
 
 (* comments: "only comment placement may differ".  Always: the formatter invents, duplicates
-   and reorders no comment, and (when it deletes no construct) every comment standing where the
-   canonical layout breaks the line survives.  [c_strict]: every comment survives. *)
+   and reorders no comment, and every comment survives unless it stood between two tokens printed
+   on one line or was attached to a deleted construct (the registered finding C20-comment-dropped,
+   pinned by the model's own line structure and deletions).  [c_strict]: every comment survives. *)
 Definition cmts_ok (c : case) (a : api) : bool :=
   let src := map norm_cmt (c_cmts c) in
   let out := map norm_cmt (c_fcmts c) in
   subseq out src
-  && (if api_eqb (norm a) a
-      then subseq (map norm_cmt (placed_cmts (c_toks c) (print a) (c_cmts c))) out
-      else true)
+  && mark_consistent a
+  && subseq (map norm_cmt (placed_cmts (c_toks c) a (c_cmts c) (c_csame c))) out
   && (if c_strict c then list_eqb String.eqb src out else true).
 
 (* the property on the implementation's own output *)
@@ -278,11 +356,11 @@ Definition diagnose (c : case) : option diag :=
   | Some a =>
     let src := map norm_cmt (c_cmts c) in
     let out := map norm_cmt (c_fcmts c) in
-    let placed := map norm_cmt (placed_cmts (c_toks c) (print a) (c_cmts c)) in
+    let placed := map norm_cmt (placed_cmts (c_toks c) a (c_cmts c) (c_csame c)) in
     Some (Diag (layout_ok (map fst (c_fcmts c)) (c_ftoks c) (print (norm a)))
                (oapi_eqb (c_fast c) (Some (norm a)))
                (subseq out src)
-               (if api_eqb (norm a) a then subseq placed out else true)
+               (mark_consistent a && subseq placed out)
                (list_eqb String.eqb src out)
                (c_idem c) (c_file_ok c) (forallb not_crash (c_muts c)) placed)
   | None => None
